@@ -98,6 +98,14 @@ def unit_get_method():
         g = lambda *a: None
         c.check("callable_returned_as_is", misc.get_method("alg", table, g) is g)
 
+        def alpha(*a):          # a user's own callable that happens to be named like a built-in entry
+            return None
+
+        def BETA_2(*a):
+            return None
+        c.check("callable_named_like_a_built_in_is_still_returned_as_is", misc.get_method("alg", table, alpha) is alpha
+                and misc.get_method("alg", table, BETA_2) is BETA_2)
+
         class Obj(object):
             def __call__(self):
                 pass
@@ -116,6 +124,43 @@ def unit_get_method():
             c.ok("None_is_an_internal_error")
         c.check("table_not_mutated", table == {"alpha": f1, "beta_2": f2})
     return kit.run_unit("get_method", run)
+
+
+def unit_grad_mode_frame():
+    """the global grad mode is the caller's after every evaluation of the function handed to a method and after the call
+    (minimize differentiates the objective inside: that must not leak)"""
+    rf = _imp("xitorch.optimize.rootfinder")
+
+    def run():
+        c = ctx()
+        n = fresh_int("n")
+        c.assume(n.e >= 1)
+        y0 = st.vec("y0", (n,), (0,))
+        p = st.vec("p", (2,), (0,), requires_grad=True)
+
+        def objective(y, p_):
+            r = st.Tensor("sc", st.Sc(z3.Real("z")), (), y.dtype)
+            return st._taped("objective", [y, p_], r, lambda g: [st.Tensor("vec", y.v, y.shape, y.dtype, y.vaxes), None])
+        seen = []
+
+        def method(fcn, y0_, params, **kw):
+            for _ in range(2):
+                before = st.is_grad_enabled()
+                fcn(y0_, *params)
+                seen.append((before, st.is_grad_enabled()))
+            return y0_
+        for outer in (False, True):
+            del seen[:]
+            with (st.enable_grad() if outer else st.no_grad()):
+                ok, _ = kit.call_or_fail(c, "minimize[custom method]:does_not_raise", lambda: rf.minimize(objective, y0, params=(p,), method=method))
+                after = st.is_grad_enabled()
+            if not ok:
+                return
+            tag = "minimize[called with grad mode %s]" % ("on" if outer else "off")
+            c.check(tag + ":method_runs_without_recording_and_each_evaluation_leaves_the_grad_mode_as_it_found_it",
+                    len(seen) == 2 and all(b is False and a is False for b, a in seen), detail=str(seen))
+            c.check(tag + ":callers_grad_mode_is_unchanged_by_the_call", after == outer)
+    return kit.run_unit("grad_mode_frame", run)
 
 
 def unit_options():
@@ -436,7 +481,7 @@ def _same_tensor(a, b):
 
 
 def units(tier):
-    us = [("get_method", unit_get_method), ("options", unit_options)]
+    us = [("get_method", unit_get_method), ("options", unit_options), ("grad_mode_frame", unit_grad_mode_frame)]
     for f in ("solve", "symeig", "rootfinder", "equilibrium", "minimize", "solve_ivp", "quad", "mcquad"):
         us.append((f, (lambda f=f: unit_functional(f))))
     return us
